@@ -458,7 +458,97 @@ func famAuthority(g *sgen, i int) J {
 		"steps": []interface{}{step("postInbox", "POST", g.header(true), "/users/alice/inbox", a)}}
 }
 
-var families = map[string]family{"authority": famAuthority, "create": famCreate, "history": famHistory, "ids": famIds, "missing": famMissing, "inbox": famInbox, "outbox": famOutbox, "send": famSend, "get": famGet, "gate": famGate}
+// C02: a random federation graph behind the addressing properties
+func famGraph(g *sgen, i int) J {
+	w := g.baseWorld()
+	w["socialCallbacks"] = J{"wrapped": []interface{}{}, "other": []interface{}{}, "onFollow": 0.0}
+	rem := jmap(w["remote"])
+	inboxFor := jmap(w["inboxFor"])
+	var actors, cols []string
+	na, nc := 3+g.r.intn(5), 1+g.r.intn(4)
+	for k := 0; k < na; k++ {
+		id := remote(fmt.Sprintf("/users/r%d", k))
+		actors = append(actors, id)
+		switch g.r.intn(9) {
+		case 0:
+			rem[id] = J{"__raw": "<html>not json</html>"}
+		case 1:
+			rem[id] = J{"type": "Gizmo", "id": id}
+		case 2:
+			delete(rem, id) // unreachable
+		default:
+			rem[id] = actorDoc(id, id+"/inbox")
+		}
+		if g.r.chance(25) {
+			inboxFor[id] = id + "/stored-inbox"
+		}
+	}
+	for k := 0; k < nc; k++ {
+		cols = append(cols, remote(fmt.Sprintf("/cols/c%d", k)))
+	}
+	pool := append(append([]string{}, actors...), cols...)
+	pool = append(pool, alice, dave, carol)
+	for k, id := range cols {
+		var items []interface{}
+		for j, n := 0, g.r.intn(5); j < n; j++ {
+			items = append(items, pool[g.r.intn(len(pool))])
+		}
+		if items == nil {
+			items = []interface{}{}
+		}
+		ty, key := "Collection", "items"
+		switch (k + g.r.intn(4)) % 4 {
+		case 1:
+			ty, key = "OrderedCollection", "orderedItems"
+		case 2:
+			ty, key = "CollectionPage", "items"
+		case 3:
+			ty, key = "OrderedCollectionPage", "orderedItems"
+		}
+		rem[id] = J{"type": ty, "id": id, key: asList(items)}
+	}
+	w["maxDeliveryDepth"] = float64(1 + g.r.intn(4))
+	apool := append(append([]string{}, pool...), publicIRI, "as:Public", remote("/gone"), alice)
+	var v J
+	switch i % 3 {
+	case 0:
+		v = J{"type": "Note", "content": "hi"}
+	case 1:
+		v = J{"type": "Like", "actor": alice, "object": remote("/notes/8")}
+	default:
+		v = J{"type": "Announce", "actor": alice, "object": remote("/notes/9")}
+	}
+	g.address(v, apool, 55)
+	if len(cols) >= 2 && g.r.chance(35) {
+		// a collection addressed directly and also reachable through another one (shared / nested audiences)
+		outer, inner := cols[0], cols[1]
+		od := jmap(rem[outer])
+		for _, key := range []string{"items", "orderedItems"} {
+			if _, ok := od[key]; ok {
+				od[key] = asList(append([]interface{}{inner}, jlist(od[key])...))
+			}
+		}
+		id := jmap(rem[inner])
+		for _, key := range []string{"items", "orderedItems"} {
+			if _, ok := id[key]; ok {
+				id[key] = asList(append(jlist(id[key]), actors[g.r.intn(len(actors))]))
+			}
+		}
+		pair := []interface{}{outer, inner}
+		if g.r.bool() {
+			pair = []interface{}{inner, outer}
+		}
+		v[g.r.pick([]string{"to", "cc", "bto", "audience"})] = asList(pair)
+	}
+	if g.r.bool() {
+		st := J{"entry": "send", "host": hostA, "path": "/users/alice/outbox", "value": v}
+		return J{"label": "graph-send", "wantGraph": true, "unordered": v["type"] == "Note", "cfg": J{"kind": "both"}, "world": w, "steps": []interface{}{st}}
+	}
+	return J{"label": "graph-post", "wantGraph": true, "unordered": v["type"] == "Note", "cfg": J{"kind": "both"}, "world": w,
+		"steps": []interface{}{step("postOutbox", "POST", g.header(true), "/users/alice/outbox", v)}}
+}
+
+var families = map[string]family{"graph": famGraph, "authority": famAuthority, "create": famCreate, "history": famHistory, "ids": famIds, "missing": famMissing, "inbox": famInbox, "outbox": famOutbox, "send": famSend, "get": famGet, "gate": famGate}
 
 // args: <prop> <count> <maxFaultsPerScenario> fam1,fam2,...
 func genPub(r *rng, thorough bool, args []string, yield func(in J)) {
